@@ -41,6 +41,8 @@ def cases(tier, seed):
             if tier == "quick" and rnd.random() < 0.65:
                 continue
             yield {"kind": "svgp", "strategy": strat, "dist": dist, "zbatch": bb, "pbatch": bb, "dbatch": bb, "mn": mn, "seed": rnd.randrange(10**6)}
+        for strat, dist, xrel, bb in itertools.product(["VariationalStrategy", "UnwhitenedVariationalStrategy"], DISTS[:2] + DISTS[3:4], ["at_Z", "near_Z", "float_roundtrip_Z"], [[], [2]]):
+            yield {"kind": "svgp", "strategy": strat, "dist": dist, "zbatch": bb, "pbatch": bb, "dbatch": bb, "mn": [4, 4], "xrel": xrel, "seed": rnd.randrange(10**6)}
         for kind_, mn in itertools.product(["identity", "same_qu", "bdvs"], [[1, 6], [4, 4], [2, 2]]):
             if kind_ == "identity":
                 yield {"kind": "identity", "strategy": rnd.choice(["VariationalStrategy", "UnwhitenedVariationalStrategy"]), "dist": rnd.choice(DISTS[:2] + DISTS[3:]), "mn": mn, "seed": rnd.randrange(10**6)}
@@ -274,8 +276,15 @@ def _svgp(case, ctx, g):
     vs = m.variational_strategy
     X = util.randn(g, *case["dbatch"], N_, D)
     Z = vs.inducing_points.detach()
+    if case.get("xrel"):
+        # inputs that are exactly / almost / to single precision the inducing points (same shape): still their own points
+        X = Z.clone()
+        if case["xrel"] == "near_Z":
+            X = X * (1 + 3e-6 * util.randn(g, *X.shape)) + 1e-7 * util.randn(g, *X.shape)
+        elif case["xrel"] == "float_roundtrip_Z":
+            X = X.float().double()
     jit = float(vs.jitter_val)
-    cls = f"{strat[:6]}:{dist[:6]}"
+    cls = f"{strat[:6]}:{dist[:6]}" + (":" + case["xrel"] if case.get("xrel") else "")
     tol = (1e-3, 1e-3) if ciq else (1e-7, 1e-7)
     full = torch.broadcast_shapes(torch.Size(case["zbatch"]), torch.Size(case["pbatch"]), torch.Size(case["dbatch"]))
     Ze, Xe = Z.expand(*full, M_, D), X.expand(*full, N_, D)
@@ -362,6 +371,28 @@ def _svgp(case, ctx, g):
             r_0, _ = _closed_form(Kzz2, Kxz2, Kxx2, mz2, mx2, mu_02, Su_02, 0.0, 0.0)
             got2 = m(X).mean
             ctx.close("qf_mean_skipvar", got2, r_j.expand(got2.shape), tol, cls=cls + ":mean_skipvar_after_update", alt=r_0.expand(got2.shape), strategy=strat, dist=dist)
+    # training mode with autograd switched off (evaluating the objective on held-out data between optimiser steps): means
+    # and variances of the CURRENT parameters, before and after they move
+    if not ciq and not case.get("xrel"):
+        with torch.no_grad():
+            m.train()
+            m(X)
+            g3 = util.gen(case["seed"] + 1777)
+            util.randomize(m.mean_module, g3, 0.7)
+            util.randomize(m.covar_module, g3, 0.4)
+            _randomize_vd(vs._variational_distribution, dist, g3)
+            vs.inducing_points.data = vs.inducing_points.data + 0.1 * util.randn(g3, *vs.inducing_points.shape)
+            Z3 = vs.inducing_points.detach()
+            Kzz3, Kxz3, Kxx3, mz3, mx3 = _pieces(m, Z3.expand(*full, M_, D), Xe)
+            (mu_j3, Su_j3), (mu_03, Su_03) = _qu_unwhitened(strat, dist, vs, Kzz3, mz3, jit)
+            r_j3, c_j3 = _closed_form(Kzz3, Kxz3, Kxx3, mz3, mx3, mu_j3, Su_j3, jit, jit if strat != "UnwhitenedVariationalStrategy" else 0.0)
+            r_03, c_03 = _closed_form(Kzz3, Kxz3, Kxx3, mz3, mx3, mu_03, Su_03, 0.0, 0.0)
+            o3 = m(X)
+            kl3 = vs.kl_divergence()
+        ctx.close("qf_train_mean", o3.mean, r_j3.expand(o3.mean.shape), tol, cls=cls + ":train_mean:no_grad_after_update", alt=r_03.expand(o3.mean.shape), strategy=strat, dist=dist)
+        dj3, d03 = torch.diagonal(c_j3, dim1=-2, dim2=-1), torch.diagonal(c_03, dim1=-2, dim2=-1)
+        ctx.close("qf_train_variance", o3.variance, dj3.expand(o3.variance.shape), tol, cls=cls + ":train_var:no_grad_after_update", alt=d03.expand(o3.variance.shape), strategy=strat, dist=dist)
+        m.eval()
     ctx.cell({k: v for k, v in case.items() if k != "seed"}, nontrivial=nontriv)
 
 
@@ -686,7 +717,10 @@ def _same_qu(case, ctx, g):
 def _unwhitened_eval_kl(case, fl):
     """UnwhitenedVariationalStrategy.prior_distribution outside a training forward uses add_jitter() = 1e-3 on K_ZZ, so
     kl_divergence() read in EVALUATION mode deviates from the closed form (the value read right after a training forward is exact)"""
-    return fl["monitor"] == "kl_closed_form_eval" and fl.get("strategy") == "UnwhitenedVariationalStrategy"
+    if fl.get("strategy") != "UnwhitenedVariationalStrategy":
+        return False
+    # (also in training mode when the last forward took the `inputs are the inducing points` shortcut, which does not refresh the prior)
+    return fl["monitor"] == "kl_closed_form_eval" or (fl["monitor"] == "kl_closed_form" and case.get("xrel") == "at_Z")
 
 
 def _bdvs_const(case, fl):
